@@ -412,6 +412,10 @@ class WorkerPool:
                         self.deaths += 1
                         if self.deaths > 20000:
                             raise Undecided("harness workers keep dying: %s" % self._stderr_tail(i))
+                        if self.deaths > 200 and getattr(self.ctx, "violations", None):
+                            # the code under test kills the worker again and again and violations are already confirmed:
+                            # every further death costs a process start; what was confirmed so far stands
+                            raise Undecided("the code under test killed %d workers; stopping early" % self.deaths)
                         try:
                             p.kill()
                             p.wait(timeout=10)
